@@ -731,8 +731,8 @@ func isDigit(s string) bool {
 }
 
 // Yield “specificity, (Element, declaration, BaseUrl)“ rules.
-// Rules from "style" attribute are returned with specificity
-// “(1, 0, 0)“.
+// Rules from "style" attribute are returned with a specificity
+// higher than the one of any selector.
 // If “presentationalHints“ is “true“, rules from presentational hints
 // are returned with specificity “(0, 0, 0)“.
 // presentationalHints=false
@@ -745,7 +745,8 @@ func findStyleAttributes(tree *utils.HTMLNode, presentationalHints bool, baseUrl
 	iter := tree.Iter()
 	for iter.HasNext() {
 		element := iter.Next()
-		specificity := selector.Specificity{1, 0, 0}
+		// a style attribute outranks every selector, whatever its number of ids
+		specificity := selector.Specificity{1 << 30, 0, 0}
 		styleAttribute := element.Get("style")
 		if styleAttribute != "" {
 			out = append(out, styleAttrSpec{specificity: specificity, styleAttr: checkStyleAttribute(element, styleAttribute)})
